@@ -64,12 +64,18 @@ func genRelayPlan(r *rand.Rand) *ProxyPlan {
 	rs.CC = [][]string{{"max-age=600"}, {"no-store"}, nil}[r.IntN(3)]
 	rs.ETag = []string{"strong", ""}[r.IntN(2)]
 	rs.LastMod = r.IntN(2) == 0
+	if rs.LastMod && r.IntN(3) == 0 {
+		rs.LastModForm = []string{"rfc850", "asctime", "junk"}[r.IntN(3)]
+	}
 	rs.NoLength = r.IntN(3) == 0
 	if r.IntN(2) == 0 {
 		rs.Chunk = 30000
 	}
 	rs.Extra = append(pickSome(r, respE2E, 0.4), pickSome(r, respHop, 0.35)...)
 	rs.NoCloseEcho = r.IntN(2) == 0
+	if rs.ETag != "" && r.IntN(8) == 0 {
+		rs.Extra = append(rs.Extra, [2]string{"ETag", `"second-tag"`})
+	}
 	rs.Gzip = r.IntN(3) == 0
 	if rs.Status >= 301 && rs.Status <= 307 {
 		rs.Extra = append(rs.Extra, [2]string{"Location", "http://origin.test/elsewhere?x=1"})
